@@ -103,6 +103,8 @@ def main():
              "kind_free_text": "Rust binary: proptest TestRunner driven from main (16 seeded workers), bounded-exhaustive enumerators, independent ESRI codec as oracle, logging/faulting I/O doubles, counting allocator"},
             {"name": "vcheck-geo", "path": "/verif/harness-geo", "serves_properties": [c["property_id"] for c in checks if c["property_id"] == "C20"],
              "kind_free_text": "same engine built against shapefile with the geo-types and geo-traits features"},
+            {"name": "libfuzzer-targets", "path": "/verif/fuzz", "serves_properties": ["C01", "C02", "C03", "C07", "C17"],
+             "kind_free_text": "cargo-fuzz crate (nightly, ASan, debug assertions): roundtrip, reader_struct, reader_raw; run by tools/fuzzstage.sh in the thorough tier with the same oracles (vlib) inside the targets"},
         ],
         "checks": checks,
         "notes": "All checks rebuild /verif's harness against /repo's working tree (cargo path dependency) before running. Exit 2 = inconclusive (build failure / watchdog), never a violation. VERIF_SEED selects the PRNG stream; VERIF_SCALE multiplies case counts.",
